@@ -70,6 +70,22 @@ def gen_steps(rng, specs, nclients, n, client_ops=True, late_start=False, snoope
                       {"op": "d_venable", "dev": d, "vec": v["name"], "value": rng.random() < 0.5},
                       {"op": "d_genable", "dev": d, "group": gname, "value": True}]
             continue
+        if client_ops and rng.random() < 0.04:
+            # updates of one element around the very iterations in which a stalled connection comes back: one sent into the
+            # stall, one queued behind it, one published k loop iterations later - i.e. possibly between the drain completing,
+            # the send lock being released and the queued sender resuming.  The last one must win on every client.
+            cands = [(d, v, e) for d, v, e in els if v["kind"] in ("Text", "Number")]
+            if cands:
+                d, v, e = rng.choice(cands)
+                steps.append({"op": "settle"})
+                steps.append({"op": "stall", "conn": rng.choice(["cl0.ctl", "cl1.ctl"]), "dir": "down", "dt": rng.choice([0.01, 0.5])})
+                steps.append({"op": "d_assign", "dev": d, "vec": v["name"], "el": e["name"], "value": V.driver_value(rng, v["kind"], e)})
+                steps.append({"op": "gap", "dt": 0.0, "iters": rng.randint(1, 4)})  # (the first one is now waiting for the peer)
+                steps.append({"op": "d_assign", "dev": d, "vec": v["name"], "el": e["name"], "value": V.driver_value(rng, v["kind"], e)})
+                steps.append({"op": "gap", "dt": 0.0, "iters": rng.randint(1, 14)})
+                steps.append({"op": "d_assign", "dev": d, "vec": v["name"], "el": e["name"], "value": V.driver_value(rng, v["kind"], e)})
+                steps.append({"op": "settle"})
+            continue
         if r < 0.28:
             d, v, e = rng.choice(els)
             if v["kind"] == "Number" and rng.random() < 0.25:
